@@ -219,21 +219,23 @@ section SrcMethods
 open TonVerif.Proofs.SrcBuilder TonVerif.Proofs.SrcSlice TonVerif.Proofs.SrcTyped
 
 /-- `c07_invariant` for the regenerated methods: every regenerated builder operation (the typed stores, `store_cell`,
-`store_slice`) maps a builder within capacity to a builder within capacity — whether it returns or raises after a partial
+`store_slice`; `MkOk`: see `C06`) maps a builder within capacity to a builder within capacity — whether it returns or raises after a partial
 write; hence so does every finite history of them. -/
 theorem c07_src_invariant :
-    (∀ (op : Op R) (f : Builder R → Builder R × Option Unit), srcOp? op = some f →
+    ∀ (mk : Bits → List R → Option (Py.CellV R)), MkOk mk →
+    (∀ (op : Op R) (f : Builder R → Builder R × Option Unit), srcOp? mk op = some f →
         ∀ b, Proofs.Builder.Inv b → Proofs.Builder.Inv (f b).1) ∧
-    (∀ (fs : List (Builder R → Builder R × Option Unit)), (∀ f ∈ fs, ∃ op : Op R, srcOp? op = some f) →
+    (∀ (fs : List (Builder R → Builder R × Option Unit)), (∀ f ∈ fs, ∃ op : Op R, srcOp? mk op = some f) →
         Proofs.Builder.Inv (fs.foldl (fun b f => (f b).1) (Builder.empty : Builder R))) := by
-  have step : ∀ (op : Op R) (f : Builder R → Builder R × Option Unit), srcOp? op = some f →
+  intro mk hmk
+  have step : ∀ (op : Op R) (f : Builder R → Builder R × Option Unit), srcOp? mk op = some f →
       ∀ b, Proofs.Builder.Inv b → Proofs.Builder.Inv (f b).1 := by
     intro op f hf b hb
-    rw [srcOp_eq op f hf b]
+    rw [srcOp_eq mk hmk op f hf b]
     exact safe_run op b hb
   refine ⟨step, ?_⟩
   intro fs
-  suffices h : ∀ (b : Builder R), Proofs.Builder.Inv b → (∀ f ∈ fs, ∃ op : Op R, srcOp? op = some f) →
+  suffices h : ∀ (b : Builder R), Proofs.Builder.Inv b → (∀ f ∈ fs, ∃ op : Op R, srcOp? mk op = some f) →
       Proofs.Builder.Inv (fs.foldl (fun b f => (f b).1) b) from h _ inv_empty
   induction fs with
   | nil => intro b hb _; exact hb
@@ -244,9 +246,9 @@ theorem c07_src_invariant :
 
 /-- `c07_refuse_iff` for the regenerated methods: on a within-capacity builder a regenerated typed store raises EXACTLY when the
 value is out of range for its width or its encoding does not fit the remaining bits / references. -/
-theorem c07_src_refuse_iff (tv : TVal R) (f : Builder R → Builder R × Option Unit) (hf : srcStore? tv = some f)
-    (b : Builder R) (hb : Proofs.Builder.Inv b) : (f b).2 = none ↔ ¬ Fits tv b := by
-  rw [srcStore_eq tv f hf b, ← c07_refuse_iff tv b hb, ofFlag_none]
+theorem c07_src_refuse_iff (mk : Bits → List R → Option (Py.CellV R)) (hmk : MkOk mk) (tv : TVal R)
+    (b : Builder R) (hb : Proofs.Builder.Inv b) : (srcStore mk tv b).2 = none ↔ ¬ Fits tv b := by
+  rw [srcStore_eq mk hmk tv b, ← c07_refuse_iff tv b hb, ofFlag_none]
 
 /-- the same for the regenerated composite stores: `store_cell(c)` / `store_slice(s)` raise exactly when the cell's bits / refs —
 for a slice its REMAINING refs `refs[ref_offset:]` — do not fit; when they return they append exactly those. -/
